@@ -7,7 +7,7 @@ from vlib import hexd, frac, frac_of_hex, unhex
 EPS = 2.0 ** -52
 
 
-STYLES = ["dyadic", "full", "tinyscale", "singular", "scalar", "zeroF", "nonnormal", "symF", "diagF", "identityF", "orthF", "hugescale", "mixedscale", "full"]
+STYLES = ["dyadic", "full", "tinyscale", "singular", "scalar", "zeroF", "nonnormal", "symF", "diagF", "identityF", "orthF", "hugescale", "mixedscale", "neardup", "full"]
 
 
 def scale_of(r, style, which):
@@ -21,13 +21,8 @@ def scale_of(r, style, which):
     return None
 
 
-def gen_case(g, tier, idx):
-    """one KFPrediction object, 1..3 predict() calls -> (harness line, [single-call kfp lines], meta)"""
+def gen_FQ(g, style, n):
     r = g.r
-    big = 6 if tier == "quick" else 9
-    style = STYLES[idx % len(STYLES)] if idx < 3 * len(STYLES) else r.choice(STYLES)
-    n = 1 if style == "scalar" else (idx % big + 1 if idx < 4 * big else r.randint(1, big))
-    exo = (idx % 2 == 0) if idx < 40 else (r.random() < 0.5)
     if style == "dyadic":
         Q = g.spd_dyadic(n)
         F = [[g.dyadic(-2, 2, 3) for _ in range(n)] for _ in range(n)]
@@ -37,6 +32,8 @@ def gen_case(g, tier, idx):
         if style in ("tinyscale", "hugescale") and r.random() < 0.5:
             fs = 10 ** (r.uniform(-6, -2) if style == "tinyscale" else r.uniform(2, 6))
             F = [[fs * x for x in row] for row in F]
+    if style == "neardup":
+        Q = g.spd(n, scale=10 ** r.uniform(-12, -9))      # small process noise: tiny directions of P stay visible
     if style == "zeroF":
         F = [[0.0] * n for _ in range(n)]
     if style == "nonnormal":
@@ -49,28 +46,81 @@ def gen_case(g, tier, idx):
         F = [[1.0 if i == j else 0.0 for j in range(n)] for i in range(n)]
     if style == "orthF":
         F = g.orth(n)
-    head = vlib.fmt_mat_cm(F) + vlib.fmt_mat_cm(Q)
-    if exo:
-        G = g.mat(n, n)
-        gv = g.vec(n)
-        head += vlib.fmt_mat_cm(G) + [hexd(v) for v in gv]
+    return F, Q
+
+
+def skip_history(r, exo):
+    """skip commands on the prediction object that end with everything switched off again
+    (name: 0 prediction, 1 state, 2 exogenous - the last only when such a model is attached)"""
+    if r.random() < 0.5:
+        return []
+    names = [0, 1] + ([2] if exo else [])
+    cmds = [(r.choice(names), r.choice([0, 1])) for _ in range(r.randint(1, 4))]
+    if r.random() < 0.5:
+        off = [(0, 0)]                      # 'prediction' off alone switches state and exogenous off too
+    else:
+        off = [(nm, 0) for nm in names]
+        r.shuffle(off)
+    return cmds + off
+
+
+def gen_case(g, tier, idx):
+    """one KFPrediction object over a (possibly time-varying) linear model, 1..3 predict() calls, each
+    preceded by a skip-command history that ends with nothing skipped
+    -> (harness line, [single-call kfp lines], meta)"""
+    r = g.r
+    big = 6 if tier == "quick" else 9
+    style = STYLES[idx % len(STYLES)] if idx < 3 * len(STYLES) else r.choice(STYLES)
+    n = 1 if style == "scalar" else (idx % big + 1 if idx < 4 * big else r.randint(1, big))
+    if style == "neardup":
+        n = max(n, 2)
+    exo = (idx % 2 == 0) if idx < 40 else (r.random() < 0.5)
+    F, Q = gen_FQ(g, style, n)
+    G, gv = (g.mat(n, n), g.vec(n)) if exo else (None, None)
     ncalls = r.choice([1, 1, 2, 3])
-    seq = ["kfps", str(n), "1" if exo else "0"] + head + [str(ncalls)]
+    seq = ["kfpv", str(n), "1" if exo else "0", str(ncalls)]
     singles = []
-    for _ in range(ncalls):
+    varied = nskip = 0
+    for c in range(ncalls):
+        if c > 0 and r.random() < 0.6:
+            F2, Q2 = gen_FQ(g, style, n)
+            which = r.choice(["F", "Q", "both", "exo"] if exo else ["F", "Q", "both"])
+            if which in ("F", "both"):
+                F = F2
+            if which in ("Q", "both"):
+                Q = Q2
+            if which == "exo":
+                G, gv = g.mat(n, n), g.vec(n)
+            varied += 1
+        head = vlib.fmt_mat_cm(F) + vlib.fmt_mat_cm(Q)
+        if exo:
+            head += vlib.fmt_mat_cm(G) + [hexd(v) for v in gv]
+        hist = skip_history(r, exo)
+        nskip += len(hist)
         k = r.choice([1, 1, 2, 3, 4, 6])
         if style == "dyadic":
             Ps = [g.spd_dyadic(n) for _ in range(k)]
             means = [[g.dyadic(-4, 4, 3) for _ in range(n)] for _ in range(k)]
+        elif style == "neardup":
+            # consecutive components equal in norm to ~1e-13 but different in a tiny-scale direction
+            k = r.choice([2, 3, 4])
+            U, lam = g.spd_parts(n, 10 ** r.uniform(10, 14), 10 ** r.uniform(3, 6))
+            Ps = []
+            for c2 in range(k):
+                t = 0.0 if c2 == 0 else r.choice([0.0, 1.0, 3.0, 0.5])
+                l2 = list(lam)
+                l2[-1] = lam[-1] * (1.0 + t)
+                Ps.append(g.assemble(U, l2))
+            means = [g.vec(n) for _ in range(k)]
         else:
             Ps = [g.spd(n, rank=(r.randint(0, n) if style == "singular" else None), scale=scale_of(r, style, "P")) for _ in range(k)]
             means = [g.vec(n) for _ in range(k)]
-        toks = [hexd(means[c][i]) for c in range(k) for i in range(n)]
-        toks += [hexd(Ps[c][i][j]) for c in range(k) for j in range(n) for i in range(n)]
+        toks = [hexd(means[c2][i]) for c2 in range(k) for i in range(n)]
+        toks += [hexd(Ps[c2][i][j]) for c2 in range(k) for j in range(n) for i in range(n)]
         toks += [hexd(r.uniform(0.01, 1.0)) for _ in range(k)]
-        seq += [str(k)] + toks
+        seq += head + [str(len(hist))] + [str(x) for cmd in hist for x in cmd] + [str(k)] + toks
         singles.append(" ".join(["kfp", str(n), str(k), "1" if exo else "0"] + head + toks))
-    return " ".join(seq), singles, {"style": style, "n": n, "exo": exo, "calls": ncalls}
+    return " ".join(seq), singles, {"style": style, "n": n, "exo": exo, "calls": ncalls, "model_changes": varied, "skip_commands": nskip}
 
 
 def split_seq_output(hout, ncalls):
@@ -161,18 +211,27 @@ def check_case(line, hout, dout, stats):
 
 
 def replay_case(path):
-    """re-run the input recorded in a replay file (a kfps sequence line or a single kfp line)"""
+    """re-run the input recorded in a replay file (a kfpv / kfps sequence line or a single kfp line)"""
     import json
     line = json.load(open(path))["replay"]["input_line"]
     t = line.split()
     if t[0] == "kfp":
         return (line, [line], {"style": "replay", "calls": 1})
     n, exo = int(t[1]), t[2] == "1"
-    p = 3
     hl = 2 * n * n + ((n * n + n) if exo else 0)
+    singles = []
+    if t[0] == "kfpv":
+        ncalls = int(t[3]); p = 4
+        for _ in range(ncalls):
+            head = t[p:p + hl]; p += hl
+            ns = int(t[p]); p += 1 + 2 * ns
+            k = int(t[p]); p += 1
+            ln = n * k + n * n * k + k
+            singles.append(" ".join(["kfp", str(n), str(k), "1" if exo else "0"] + head + t[p:p + ln])); p += ln
+        return (line, singles, {"style": "replay", "n": n, "exo": exo, "calls": ncalls})
+    p = 3
     head = t[p:p + hl]; p += hl
     ncalls = int(t[p]); p += 1
-    singles = []
     for _ in range(ncalls):
         k = int(t[p]); p += 1
         ln = n * k + n * n * k + k
@@ -201,7 +260,7 @@ def run(ctx):
     for (hline, slines, meta), h in zip(cases, hout):
         key = "%s%s" % (meta.get("style"), "+exo" if meta.get("exo") else "")
         hist[key] = hist.get(key, 0) + 1
-        outs = split_seq_output(h, len(slines)) if hline.startswith("kfps") else [h]
+        outs = split_seq_output(h, len(slines)) if hline.startswith(("kfps", "kfpv")) else [h]
         for sl, ho in zip(slines, outs):
             distinct.add(sl)
             for kind, key2, what in check_case(sl, ho, dout[pos], stats):
@@ -216,7 +275,7 @@ def run(ctx):
     nontrivial = sum(1 for sl in distinct if int(sl.split()[1]) > 1 or int(sl.split()[2]) > 1)
     ctx.coverage.update({
         "evaluations": len(singles), "distinct_nontrivial": nontrivial,
-        "rule": "KFPrediction objects used for 1..3 successive predict() calls (new component count per call); n in 1..%d, k in {1,2,3,4,6}; arbitrary F incl. zero/"
+        "rule": "KFPrediction objects over a time-varying linear model (F, Q, exogenous law may change between calls) used for 1..3 successive predict() calls (new component count per call), each preceded by a skip-command history ending with nothing skipped; near-duplicate consecutive components (cond up to 1e14); n in 1..%d, k in {1,2,3,4,6}; arbitrary F incl. zero/"
                 "triangular/symmetric/diagonal/identity/orthogonal, PSD P and Q incl. singular, with/without exogenous model u = G x + g; "
                 "non-trivial = n > 1 or k > 1; distinct = distinct single-call inputs" % (6 if ctx.quick() else 9),
         "samples": [cases[0][0][:400], cases[-1][0][:400]],
